@@ -759,6 +759,9 @@ func (fx *FuncCtx) optionalTerm(env *SpecEnv, inv Clause) (t string, ok bool) {
 	if !inv.Optional {
 		return env.boolTerm(inv.E), true
 	}
+	if fx.eng.dropOptional[fx.pc.Path+":"+strings.TrimSuffix(fx.key, fx.eng.tagSuffix)] {
+		return "", false
+	}
 	defer func() {
 		if r := recover(); r != nil {
 			if se, isSpec := r.(specErr); isSpec && strings.Contains(se.msg, "unknown identifier") {
